@@ -27,6 +27,8 @@ func Main(args []string) int {
 	switch args[0] {
 	case "monitor-replay":
 		return monitorReplay(*scripts, *out, *from, *to)
+	case "lease-replay":
+		return leaseReplay(*scripts, *out)
 	case "watchdog-replay":
 		return watchdogReplay(*scripts, *out)
 	case "watchdog-free":
